@@ -163,6 +163,7 @@ enum Loc {
     Let(String),
     Match(String),
     Return,
+    IfCond,
 }
 struct Finder {
     loc: Loc,
@@ -194,6 +195,15 @@ impl<'a> Visit<'a> for Finder {
         }
         visit::visit_expr_match(self, m);
     }
+    fn visit_expr_if(&mut self, i: &'a syn::ExprIf) {
+        if let Loc::IfCond = &self.loc {
+            // `if let` conditions are patterns, not expressions to translate
+            if !matches!(&*i.cond, syn::Expr::Let(_)) {
+                self.hits.push((*i.cond).clone());
+            }
+        }
+        visit::visit_expr_if(self, i);
+    }
     fn visit_expr_return(&mut self, r: &'a syn::ExprReturn) {
         if let (Loc::Return, Some(e)) = (&self.loc, &r.expr) {
             self.hits.push((**e).clone());
@@ -203,9 +213,10 @@ impl<'a> Visit<'a> for Finder {
 }
 
 /// Resolve a structural locator inside a function body:
-/// `{"let": name}` / `{"match": scrutinee text}` / `{"return": true}` (with optional
-/// `"nth"`, 0-based, in source order, searching nested blocks, loops and closures),
-/// `{"tail_of": true}`; optional `"arg_of": "Ok"` then steps into a one-argument call.
+/// `{"let": name}` / `{"match": scrutinee text}` / `{"return": true}` / `{"if": true}` (the CONDITION of an
+/// `if`, `if let` excluded) (with optional `"nth"`, 0-based, in source order, searching nested blocks, loops and
+/// closures), `{"tail_of": true}`; optional `"arg_of": "Ok"` then steps into a one-argument call; optional
+/// `"peel": ["cast", "try", "paren", …]` then strips, in that order, an outer `e as T`, `e?`, `(e)`.
 fn locate(body: &syn::Block, loc: &Value) -> R<syn::Expr> {
     let nth = loc.get("nth").and_then(|v| v.as_u64()).unwrap_or(0) as usize;
     let mut found = if loc.get("tail_of").and_then(|v| v.as_bool()) == Some(true) {
@@ -220,6 +231,8 @@ fn locate(body: &syn::Block, loc: &Value) -> R<syn::Expr> {
             (Loc::Match(s.to_string()), format!("match {}", s))
         } else if loc.get("return").is_some() {
             (Loc::Return, "return".to_string())
+        } else if loc.get("if").is_some() {
+            (Loc::IfCond, "if".to_string())
         } else {
             return Err(format!("unknown locator {}", loc));
         };
@@ -237,6 +250,16 @@ fn locate(body: &syn::Block, loc: &Value) -> R<syn::Expr> {
             }
             _ => return Err(format!("locator arg_of: the located expression is not `{}(…)`", callee)),
         };
+    }
+    if let Some(peels) = loc.get("peel").and_then(|v| v.as_array()) {
+        for what in peels.iter().filter_map(|x| x.as_str()) {
+            found = match (what, &found) {
+                ("cast", syn::Expr::Cast(c)) => (*c.expr).clone(),
+                ("try", syn::Expr::Try(t)) => (*t.expr).clone(),
+                ("paren", syn::Expr::Paren(p)) => (*p.expr).clone(),
+                _ => return Err(format!("locator peel: the located expression is not a `{}` expression", what)),
+            };
+        }
     }
     Ok(found)
 }
